@@ -41,7 +41,7 @@ Nibble(kind) ==
 
 (* Encoded size of the concrete packets the harness uses for an abstract packet:
    client id "c", one subscription entry "t1", payload = msg, no other optional fields.  *)
-StrLen(s) == IF s = "" THEN 0 ELSE 2          \* every non-empty topic / payload tag has 2 bytes
+StrLen(s) == IF s = "" THEN 0 ELSE IF s = "m4xx" THEN 4 ELSE 2     \* topic / payload tags have 2 bytes ("m4xx": 4)
 PidLen(idw) == IF idw = 32 THEN 4 ELSE 2
 PropLen(p) ==
     (IF p.rm  >= 0 THEN 3 ELSE 0) + (IF p.tam >= 0 THEN 3 ELSE 0) + (IF p.mps >= 0 THEN 5 ELSE 0)
@@ -279,7 +279,9 @@ SendPublish(s, p) ==
         s1 == IF doStore THEN [s EXCEPT !.store = Append(@, StoreCopy(s, p))] ELSE s
         s2 == IF q THEN (IF p.qos = 2 THEN [s1 EXCEPT !.pubrec = @ \cup {p.pid}] ELSE [s1 EXCEPT !.puback = @ \cup {p.pid}]) ELSE s1
         s3 == IF p.ver = "v50" /\ p.topic = "" THEN [s2 EXCEPT !.taSend = TaTouch(@, p.alias)]
-              ELSE IF p.ver = "v50" /\ p.alias # 0 THEN [s2 EXCEPT !.taSend = TaInsert(@, p.topic, p.alias)]
+              \* the binding is recorded only when the packet really goes out with it: a PUBLISH that is only stored while
+              \* the handshake is running is re-sent later WITHOUT its alias (DEV 39)
+              ELSE IF p.ver = "v50" /\ p.alias # 0 /\ conn THEN [s2 EXCEPT !.taSend = TaInsert(@, p.topic, p.alias)]
               ELSE s2
         au == IF p.ver = "v50" THEN AutoAlias(s3, p) ELSE [ta |-> s3.taSend, pkt |-> p]
         fits == au.pkt.size <= s3.mpsSend                                                          (* DEV 13 *)
